@@ -256,6 +256,8 @@ class Reader(BaseValidator):
         """
         self.accepted_rows_count = 0
         self.rejected_rows_count = 0
+        # Start counting from the beginning again in case the rows have already been read (partially) before.
+        self._location = errors.Location(self._location.file_path, has_cell=True)
         self._reset_checks()
         header_row_count = self._cid.data_format.header
         for row_count, row in enumerate(self._raw_rows(), 1):
